@@ -8,5 +8,5 @@ while IFS= read -r line; do
   if [ "${SEEDROOT:-/tmp}" = "/verif/seeded" ]; then D=/verif/seeded/$prop-$m; else D=${SEEDPFX:-/tmp/seed}_${prop}_out/$m; fi
   demo=$(ls $D/demo*.go 2>/dev/null | head -1)
   echo "######## $prop $m  (checks: $checks)"
-  DEMO=$demo DEMODIR=$dir DEMOCMD="$cmd" /verif/tools/seedcheck.sh $D/patch.diff ${prop}${m} $checks 2>&1 | egrep "demo|repo tests|FAIL|^OK|^VIOLATION|INFRA|tag=|BUILD|apply" | cut -c1-170
+  DEMO=$demo DEMODIR=$dir DEMOCMD="$cmd" ${VERIF_HOME:-/verif}/tools/seedcheck.sh $D/patch.diff ${prop}${m} $checks 2>&1 | egrep "demo|repo tests|FAIL|^OK|^VIOLATION|INFRA|tag=|BUILD|apply" | cut -c1-170
 done
